@@ -14,7 +14,9 @@ ddir=$(python3 -c "import json;print(json.load(open('$out/meta.json')).get('demo
 dcmd=$(python3 -c "import json;print(json.load(open('$out/meta.json')).get('demo_cmd',''))")
 cp $demo $W/$ddir/
 cd $W
-race=""; echo "$dcmd" | grep -q -- "-race" && race="-race"; runDemo() { (cd $W/$ddir && go test $race -vet=off -count=1 -run 'TestSeedDemo$' $1 . 2>&1 | tail -5); }
+race=""; echo "$dcmd" | grep -q -- "-race" && race="-race"
+tags=$(echo "$dcmd" | grep -o -- "-tags [a-z_,]*"); race="$race $tags"
+runDemo() { (cd $W/$ddir && go test $race -vet=off -count=1 -run 'TestSeedDemo$' $1 . 2>&1 | tail -5); }
 echo "== demo WITHOUT change (must pass)"; r0=$(runDemo ""); echo "$r0" | tail -2
 git apply $out/patch.diff || { echo "PATCH DOES NOT APPLY"; exit 1; }
 go build ./... || { echo "BUILD FAILS"; exit 1; }
